@@ -57,8 +57,8 @@ func (t *T) PosBracketReturnLocal() []int {
 	return out
 }
 
-// conservative: a local defined directly from a field may be a reference into the receiver (map, slice, pointer)
-func (t *T) NegBracketReturnsAlias() map[string]int {
+// the field is read under the lock; what is returned afterwards is the local copy (same as `defer Unlock; return t.m`)
+func (t *T) PosBracketReturnsFieldValue() map[string]int {
 	t.mu.RLock()
 	x := t.m
 	t.mu.RUnlock()
@@ -195,7 +195,8 @@ func (t *T) NegMismatchedPair() {
 	t.a = 1
 }
 
-func (t *T) NegUnlockInBranch(c bool) {
+// explicit unlock before each of several returns
+func (t *T) PosUnlockBeforeEachReturn(c bool) {
 	t.mu.Lock()
 	if c {
 		t.mu.Unlock()
@@ -267,7 +268,8 @@ func (t *T) NegPointerToField() {
 	*p = 1
 }
 
-func (t *T) NegDeferClosureDoesMore() {
+// the deferred closure touches state and then unlocks: all under the lock
+func (t *T) PosDeferClosureDoesMore() {
 	t.mu.Lock()
 	defer func() {
 		t.a = 3
@@ -296,6 +298,111 @@ func (t *T) NegHandsOutRecord() []*Inner {
 }
 
 func (t *T) NegUnlockedWriteThroughCallee(v int) { t.helper(v) }
+
+// ---- more shapes for the flow analysis ---------------------------------------------------------------------
+
+// lock acquired inside an `if`, the access in the same branch
+func (t *T) PosLockInsideBranch(c bool) {
+	if c {
+		t.mu.Lock()
+		t.a = 1
+		t.mu.Unlock()
+	}
+}
+
+func (t *T) setNoLock(v int) { t.a = v }
+
+// public method = locking wrapper + ...NoLock body
+func (t *T) PosWrapperAndNoLockBody(v int) {
+	t.mu.Lock()
+	defer t.mu.Unlock()
+	t.setNoLock(v)
+}
+
+// the mutex through a local pointer
+func (t *T) PosMutexAlias() {
+	mu := &t.mu
+	mu.Lock()
+	defer mu.Unlock()
+	t.a = 1
+}
+
+func (t *T) PosSwitchUnderLock(k int) int {
+	t.mu.RLock()
+	defer t.mu.RUnlock()
+	switch k {
+	case 0:
+		return t.a
+	case 1:
+		return t.b
+	}
+	for i := range t.list {
+		if t.list[i] == k {
+			return i
+		}
+	}
+	return -1
+}
+
+func (t *T) NegLockPerIteration(n int) {
+	for i := 0; i < n; i++ {
+		t.mu.Lock()
+		t.a += i
+		t.mu.Unlock()
+	}
+}
+
+func (t *T) NegUnlockOnOnePathOnly(c bool) {
+	t.mu.Lock()
+	if c {
+		t.mu.Unlock()
+	}
+	t.a = 1
+}
+
+func (t *T) NegReturnWhileHolding(c bool) int {
+	t.mu.RLock()
+	if c {
+		return t.a
+	}
+	t.mu.RUnlock()
+	return 0
+}
+
+func (t *T) NegLoopLeavesLockHeld(n int) {
+	for i := 0; i < n; i++ {
+		t.mu.Lock()
+		t.a = i
+	}
+}
+
+func (t *T) NegDoubleLock() {
+	t.mu.Lock()
+	t.mu.Lock()
+	t.a = 1
+	t.mu.Unlock()
+}
+
+func (t *T) NegUnlockNotHeld() {
+	t.a = 1
+	t.mu.Unlock()
+}
+
+func (t *T) NegGoroutineDoesNotInheritTheLock() {
+	t.mu.Lock()
+	defer t.mu.Unlock()
+	go t.setNoLock(3)
+}
+
+func (t *T) NegBreakWhileHolding(n int) {
+	for i := 0; i < n; i++ {
+		t.mu.Lock()
+		if t.a == i {
+			break
+		}
+		t.mu.Unlock()
+	}
+}
 
 // ---- embedded struct: promoted fields and methods ---------------------------------------------------------
 
